@@ -24,6 +24,7 @@ Record cenv : Type := {
   comp_kind : nat -> ckind;               (* its declared kind *)
   comp_fields : nat -> list (nat * ty);   (* its fields: (name, declared type), in declaration order *)
   comp_type_importable : nat -> bool;     (* sema CompositeType.IsImportable *)
+  raw_field : nat;                        (* the field name `rawValue` of enums *)
 }.
 
 (* ------------------------------------------------------------------ external values (cadence.Value) *)
@@ -152,11 +153,47 @@ Definition simple_copy_prim (p : prim) : bool :=
 Definition is_container (v : ival) : bool :=
   match v with IArray _ _ _ | IDict _ _ _ | IComp _ _ _ => true | _ => false end.
 
+(* CompositeValue.HashInput, reached when a value is inserted as a dictionary key (before any
+   conformance check): only enums are hashable composites (any other kind: NewUnreachableError), the
+   enum must have a `rawValue` field (else NewUnreachableError), and the raw value is type-asserted to
+   HashableValue (a container raw value: Go runtime panic, reported as an unexpected internal error). *)
+Definition scalar_hashable (v : ival) : bool :=
+  match v with
+  | IBool _ | IString _ | IChar _ | IAddress _ | INum _ _ | IPath _ _ | IType _ => true
+  | _ => false
+  end.
+
+Definition hash_fails (k : ival) : bool :=
+  match k with
+  | IComp kind _ fs =>
+      if ckind_eqb kind KEnum then
+        match lookup (raw_field E) fs with
+        | None => true
+        | Some r => negb (scalar_hashable r)
+        end
+      else true
+  | _ => false
+  end.
+
 Fixpoint copy_fails (v : ival) : bool :=
   match v with
   | ISome x => copy_fails x
   | IArray _ (TPrim p) es => simple_copy_prim p && existsb is_container es
   | _ => false
+  end.
+
+(* NewDictionaryValue inserts the pairs one by one; DictionaryValue.Insert transfers key and value (copy),
+   checks them with checkContainerMutation (interpreter.IsSubType; ContainerMutationError is a user error
+   that importValidatedArguments catches with UserPanicToError), then hashes the key *)
+Fixpoint dict_insert (k w : ty) (all l : list (ival * ival)) : res ival :=
+  match l with
+  | [] => Ok (IDict k w all)
+  | kv :: r =>
+      if copy_fails (fst kv) || copy_fails (snd kv) then Err HostFail
+      else if negb (is_sub_static D (dyn_type (fst kv)) k && is_sub_static D (dyn_type (snd kv)) w)
+      then Err UserOther
+      else if hash_fails (fst kv) then Err Internal
+      else dict_insert k w all r
   end.
 
 (* valueImporter.importValue(value, expectedType); expectedType may be nil *)
@@ -210,19 +247,7 @@ Fixpoint import (x : xval) (exp : option ty) {struct x} : res ival :=
                          let* rest := go r in Ok ((k, w) :: rest)
                      end) l in
       match exp with
-      | Some (TDict k w) =>
-          (* NewDictionaryValue inserts the pairs one by one; DictionaryValue.Insert checks key and value
-             with checkContainerMutation (interpreter.IsSubType) and raises ContainerMutationError, a user
-             error that importValidatedArguments catches with UserPanicToError *)
-          (fix ins (l : list (ival * ival)) : res ival :=
-             match l with
-             | [] => Ok (IDict k w kvs)
-             | kv :: r =>
-                 if negb (is_sub_static D (dyn_type (fst kv)) k && is_sub_static D (dyn_type (snd kv)) w)
-                 then Err UserOther
-                 else if copy_fails (fst kv) || copy_fails (snd kv) then Err HostFail
-                 else ins r
-             end) kvs
+      | Some (TDict k w) => dict_insert k w kvs kvs
       | _ =>
           match lcs (map (fun kv => dyn_type (fst kv)) kvs) with
           | None => Err UserOther                     (* keys do not belong to the same type *)
@@ -232,8 +257,7 @@ Fixpoint import (x : xval) (exp : option ty) {struct x} : res ival :=
                 match lcs (map (fun kv => dyn_type (snd kv)) kvs) with
                 | None => Err UserOther               (* values do not belong to the same type *)
                 | Some wu =>
-                    if existsb (fun kv => copy_fails (fst kv) || copy_fails (snd kv)) kvs then Err HostFail
-                    else Ok (IDict ku wu kvs)
+                    dict_insert ku wu kvs kvs
                 end
           end
       end
